@@ -513,7 +513,7 @@ func init() {
 		},
 		Class{
 			ID:   "C01-redirect-extglob-word",
-			What: "an extended glob in a redirection word, or anywhere in a simple command that has an assignment prefix: printed after the assignment, where the parser rejects it (a=b >?(x), a= >f @(x))",
+			What: "an extended glob in a redirection word, or anywhere in a simple command that has an assignment prefix or redirections: printed after the assignment or redirection, where the parser rejects it (a=b >?(x), a= >f @(x), >f +(x))",
 			Match: func(c *Ctx) bool {
 				return c.anyNode(func(_ int, it norm.Item) bool {
 					switch n := it.Node.(type) {
@@ -527,7 +527,16 @@ func init() {
 							}
 						}
 					case *syntax.CallExpr:
-						if len(n.Assigns) == 0 {
+						redirs := false
+						if it.Parent >= 0 {
+							if st, ok := c.Items[it.Parent].Node.(*syntax.Stmt); ok && len(st.Redirs) > 0 {
+								// ">f +(x)": the words are printed after the
+								// first redirection, where "+(" can read as
+								// the start of a function declaration
+								redirs = true
+							}
+						}
+						if len(n.Assigns) == 0 && !redirs {
 							return false
 						}
 						for _, jt := range norm.Enumerate(n) {
